@@ -802,7 +802,7 @@ func genC05(c *Ctx) {
 	}
 
 	// documents x configurations
-	for i := 0; i < c.N(1300, 30000); i++ {
+	for i := 0; i < c.N(1300, 6000); i++ {
 		var doc string
 		switch x := g.n(20); {
 		case x == 0:
